@@ -633,7 +633,7 @@ Section Sound.
       exact (IHm2 _ Hy Hu (or_introl eq_refl) wy v HR).
     - ud_bin.
     - (* andor *) intros t Ht Hu Hb w v HR. cbn [type_of] in Ht. ud_child Ht ta ba ia da ua ma Ha.
-      ud_child Ht tb bb ib db ub mb Hb'. ud_child Ht tc bc ic dc uc mc Hc. unf Ht.
+      ud_child Ht dn_tb bb ib db ub mb Hb'. ud_child Ht tc bc ic dc uc mc Hc. unf Ht.
       destruct da; cbn [negb] in Ht; try discriminate. destruct ua; cbn [negb] in Ht; try discriminate.
       destruct ba, bb, bc; try discriminate; inversion Ht; subst; clear Ht; cbn in Hb; try (destruct Hb; discriminate).
       cbn in Hu. apply andb_prop in Hu. destruct Hu as [Hub Huc].
@@ -669,41 +669,41 @@ Section Sound.
     cbn [wf] in Hwf; pose proof (IH tx Hx Hwf) as Hg; pose proof (frame_inv e ke _ tx Hx Hwf) as Hi;
     destruct tx as [[bx ix dx ux] mx]; unf Ht; unfold inv in Hi; cbn [t_corr c_base c_input c_unit] in Hi.
 
-  Lemma t_alt x : sstmt x -> sstmt (MAlt x).
+  Lemma bt_alt x : sstmt x -> sstmt (MAlt x).
   Proof.
     intros IH t Ht Hwf. one_child IH Ht Hwf tx Hg Hi bx ix dx ux mx.
     destruct bx; try discriminate. inversion Ht; subst; clear Ht. red_s. exact (b_alt x Hg).
   Qed.
-  Lemma t_swap x : sstmt x -> sstmt (MSwap x).
+  Lemma bt_swap x : sstmt x -> sstmt (MSwap x).
   Proof.
     intros IH t Ht Hwf. one_child IH Ht Hwf tx Hg Hi bx ix dx ux mx.
     destruct bx; try discriminate; destruct ix; try discriminate; inversion Ht; subst; clear Ht; red_s.
     - exact (b_swap x _ _ Hg Hi (or_introl eq_refl)).
     - exact (b_swap x _ _ Hg Hi (or_intror eq_refl)).
   Qed.
-  Lemma t_check x : sstmt x -> sstmt (MCheck x).
+  Lemma bt_check x : sstmt x -> sstmt (MCheck x).
   Proof.
     intros IH t Ht Hwf. one_child IH Ht Hwf tx Hg Hi bx ix dx ux mx.
     destruct bx; try discriminate. inversion Ht; subst; clear Ht. red_s. exact (b_check x Hg).
   Qed.
-  Lemma t_dupif x : sstmt x -> sstmt (MDupIf x).
+  Lemma bt_dupif x : sstmt x -> sstmt (MDupIf x).
   Proof.
     intros IH t Ht Hwf. one_child IH Ht Hwf tx Hg Hi bx ix dx ux mx.
     destruct bx; try discriminate; destruct ix; try discriminate. inversion Ht; subst; clear Ht. red_s.
     exact (b_dupif x Hg Hi).
   Qed.
-  Lemma t_verify x : sstmt x -> sstmt (MVerify x).
+  Lemma bt_verify x : sstmt x -> sstmt (MVerify x).
   Proof.
     intros IH t Ht Hwf. one_child IH Ht Hwf tx Hg Hi bx ix dx ux mx.
     destruct bx; try discriminate. inversion Ht; subst; clear Ht. red_s. exact (b_verify x Hg).
   Qed.
-  Lemma t_nonzero x : sstmt x -> sstmt (MNonZero x).
+  Lemma bt_nonzero x : sstmt x -> sstmt (MNonZero x).
   Proof.
     intros IH t Ht Hwf. one_child IH Ht Hwf tx Hg Hi bx ix dx ux mx.
     destruct ix; cbn in Ht; try discriminate; destruct bx; try discriminate; inversion Ht; subst; clear Ht; red_s;
       exact (b_nonzero x _ _ Hg Hi eq_refl).
   Qed.
-  Lemma t_zne x : sstmt x -> sstmt (MZeroNotEqual x).
+  Lemma bt_zne x : sstmt x -> sstmt (MZeroNotEqual x).
   Proof.
     intros IH t Ht Hwf. one_child IH Ht Hwf tx Hg Hi bx ix dx ux mx.
     destruct bx; try discriminate. inversion Ht; subst; clear Ht. red_s. exact (b_zne x Hg).
@@ -716,7 +716,7 @@ Section Sound.
     pose proof (IHx tx Hx Hwx) as Hgx; pose proof (IHy ty Hy Hwy) as Hgy;
     destruct tx as [[bx ix dx ux] mx]; destruct ty as [[b2 i2 d2 u2] m2]; unf Ht.
 
-  Lemma t_and_v x y : sstmt x -> sstmt y -> sstmt (MAndV x y).
+  Lemma bt_and_v x y : sstmt x -> sstmt y -> sstmt (MAndV x y).
   Proof.
     intros IHx IHy t Ht Hwf. two_children IHx IHy Ht Hwf t1 t2 Hgx Hgy.
     destruct bx, b2; try discriminate; inversion Ht; subst; clear Ht; red_s.
@@ -724,30 +724,30 @@ Section Sound.
     - exact (b_andv_K x y Hgx Hgy).
     - exact (b_andv_V x y Hgx Hgy).
   Qed.
-  Lemma t_and_b x y : sstmt x -> sstmt y -> sstmt (MAndB x y).
+  Lemma bt_and_b x y : sstmt x -> sstmt y -> sstmt (MAndB x y).
   Proof.
     intros IHx IHy t Ht Hwf. two_children IHx IHy Ht Hwf t1 t2 Hgx Hgy.
     destruct bx, b2; try discriminate; inversion Ht; subst; clear Ht; red_s. exact (b_andb x y Hgx Hgy).
   Qed.
-  Lemma t_or_b x y : sstmt x -> sstmt y -> sstmt (MOrB x y).
+  Lemma bt_or_b x y : sstmt x -> sstmt y -> sstmt (MOrB x y).
   Proof.
     intros IHx IHy t Ht Hwf. two_children IHx IHy Ht Hwf t1 t2 Hgx Hgy.
     destruct dx; cbn [negb] in Ht; try discriminate. destruct d2; cbn [negb] in Ht; try discriminate.
     destruct bx, b2; try discriminate; inversion Ht; subst; clear Ht; red_s. exact (b_orb x y Hgx Hgy).
   Qed.
-  Lemma t_or_c x y : sstmt x -> sstmt y -> sstmt (MOrC x y).
+  Lemma bt_or_c x y : sstmt x -> sstmt y -> sstmt (MOrC x y).
   Proof.
     intros IHx IHy t Ht Hwf. two_children IHx IHy Ht Hwf t1 t2 Hgx Hgy.
     destruct dx; cbn [negb] in Ht; try discriminate. destruct ux; cbn [negb] in Ht; try discriminate.
     destruct bx, b2; try discriminate; inversion Ht; subst; clear Ht; red_s. exact (b_orc x y Hgx Hgy).
   Qed.
-  Lemma t_or_d x y : sstmt x -> sstmt y -> sstmt (MOrD x y).
+  Lemma bt_or_d x y : sstmt x -> sstmt y -> sstmt (MOrD x y).
   Proof.
     intros IHx IHy t Ht Hwf. two_children IHx IHy Ht Hwf t1 t2 Hgx Hgy.
     destruct dx; cbn [negb] in Ht; try discriminate. destruct ux; cbn [negb] in Ht; try discriminate.
     destruct bx, b2; try discriminate; inversion Ht; subst; clear Ht; red_s. exact (b_ord x y Hgx Hgy).
   Qed.
-  Lemma t_or_i x y : sstmt x -> sstmt y -> sstmt (MOrI x y).
+  Lemma bt_or_i x y : sstmt x -> sstmt y -> sstmt (MOrI x y).
   Proof.
     intros IHx IHy t Ht Hwf. two_children IHx IHy Ht Hwf t1 t2 Hgx Hgy.
     destruct bx, b2; try discriminate; inversion Ht; subst; clear Ht; red_s.
@@ -755,14 +755,14 @@ Section Sound.
     - exact (b_ori_K x y Hgx Hgy).
     - exact (b_ori_V x y Hgx Hgy).
   Qed.
-  Lemma t_andor a b c : sstmt a -> sstmt b -> sstmt c -> sstmt (MAndOr a b c).
+  Lemma bt_andor a b c : sstmt a -> sstmt b -> sstmt c -> sstmt (MAndOr a b c).
   Proof.
     intros IHa IHb IHc t Ht Hwf.
     cbn [type_of] in Ht. apply rbind_ok in Ht. destruct Ht as [ta [Ha Ht]].
-    apply rbind_ok in Ht. destruct Ht as [tb [Hb Ht]]. apply rbind_ok in Ht. destruct Ht as [tc [Hc Ht]].
+    apply rbind_ok in Ht. destruct Ht as [dn_tb [Hb Ht]]. apply rbind_ok in Ht. destruct Ht as [tc [Hc Ht]].
     cbn [wf] in Hwf. destruct Hwf as [Hwa [Hwb Hwc]].
-    pose proof (IHa ta Ha Hwa) as Hga. pose proof (IHb tb Hb Hwb) as Hgb. pose proof (IHc tc Hc Hwc) as Hgc.
-    destruct ta as [[ba ia da ua] ma], tb as [[bb ib db ub] mb], tc as [[bc ic dc uc] mc]. unf Ht.
+    pose proof (IHa ta Ha Hwa) as Hga. pose proof (IHb dn_tb Hb Hwb) as Hgb. pose proof (IHc tc Hc Hwc) as Hgc.
+    destruct ta as [[ba ia da ua] ma], dn_tb as [[bb ib db ub] mb], tc as [[bc ic dc uc] mc]. unf Ht.
     destruct da; cbn [negb] in Ht; try discriminate. destruct ua; cbn [negb] in Ht; try discriminate.
     destruct ba, bb, bc; try discriminate; inversion Ht; subst; clear Ht; red_s.
     - exact (b_andor_B a b c Hga Hgb Hgc).
@@ -770,7 +770,7 @@ Section Sound.
     - exact (b_andor_V a b c Hga Hgb Hgc).
   Qed.
 
-  Lemma t_thresh k xs : Forall sstmt xs -> sstmt (MThresh k xs).
+  Lemma bt_thresh k xs : Forall sstmt xs -> sstmt (MThresh k xs).
   Proof.
     intros IH t Ht Hwf. cbn [type_of] in Ht. fold (tys_of xs) in Ht.
     apply rbind_ok in Ht. destruct Ht as [ts [Hts Ht]]. apply tys_of_ok in Hts.
@@ -815,21 +815,21 @@ Section Sound.
     - intros t Ht _. inversion Ht; subst. exact (b_hash_gen OP_HASH256 (e_hash256 e) h (fun x r al => eq_refl)).
     - intros t Ht _. inversion Ht; subst. exact (b_hash_gen OP_RIPEMD160 (e_ripemd160 e) h (fun x r al => eq_refl)).
     - intros t Ht _. inversion Ht; subst. exact (b_hash_gen OP_HASH160 (e_hash160 e) h (fun x r al => eq_refl)).
-    - apply t_alt; assumption.
-    - apply t_swap; assumption.
-    - apply t_check; assumption.
-    - apply t_dupif; assumption.
-    - apply t_verify; assumption.
-    - apply t_nonzero; assumption.
-    - apply t_zne; assumption.
-    - apply t_and_v; assumption.
-    - apply t_and_b; assumption.
-    - apply t_andor; assumption.
-    - apply t_or_b; assumption.
-    - apply t_or_d; assumption.
-    - apply t_or_c; assumption.
-    - apply t_or_i; assumption.
-    - apply t_thresh; assumption.
+    - apply bt_alt; assumption.
+    - apply bt_swap; assumption.
+    - apply bt_check; assumption.
+    - apply bt_dupif; assumption.
+    - apply bt_verify; assumption.
+    - apply bt_nonzero; assumption.
+    - apply bt_zne; assumption.
+    - apply bt_and_v; assumption.
+    - apply bt_and_b; assumption.
+    - apply bt_andor; assumption.
+    - apply bt_or_b; assumption.
+    - apply bt_or_d; assumption.
+    - apply bt_or_c; assumption.
+    - apply bt_or_i; assumption.
+    - apply bt_thresh; assumption.
     - (* multi *) intros t Ht Hwf. inversion Ht; subst. cbn [wf] in Hwf. destruct Hwf as [Hk [Hn _]].
       intros st al r H. cbn [enc] in H. rewrite <- (map_map (kb ke) IPush ks), <- (map_length (kb ke) ks) in H.
       cbn [Rg]. refine (b_cms k (map (kb ke) ks) _ _ st al r H); rewrite map_length; assumption.
